@@ -392,7 +392,11 @@ func (p *Process) internalStop() error {
 }
 
 func (p *Process) stopProcess(cancelReadinessFuncs bool) error {
-	p.runCancelFn()
+	// only a stop request ends the run loop; after an internal stop (readiness probe
+	// gave up) the restart policy decides, so its back-off wait must not be cancelled
+	if cancelReadinessFuncs {
+		p.runCancelFn()
+	}
 	if !p.isRunning() {
 		log.Debug().Msgf("process %s is in state %s not shutting down", p.getName(), p.getStatusName())
 		// prevent pending process from running
